@@ -783,6 +783,24 @@ def dup_item_texts():
 
 
 # ---------------------------------------------------------------------------------------------------------------
+# stream F: cfg expressions that differ in token SPACING only (observation, see notes/C16.md "findings")
+# ---------------------------------------------------------------------------------------------------------------
+
+def cfg_spacing_probe(ctx, exe):
+    """The DSL stores a cfg as tokens.to_string(), manifests keep the raw string, and the MIR compares cfgs as strings
+    (names_unique's (name, cfg) pairs, Cfg::combine's dedup).  Two objects called Foo whose cfgs are written
+    `feature="a"` and `feature = "a"`: one cfg for the DSL (duplicate name: rejected), two for a manifest (accepted)."""
+    d = {"config": adef.mk_config(register_address_type="u8"),
+         "objects": [adef.mk_register("Foo", 1, 8, [], cfg='feature="a"'),
+                     adef.mk_block("Bl", [adef.mk_register("Foo", 2, 8, [], cfg='feature = "a"')], address_offset=10)]}
+    texts = render_all(d, None)
+    rs = run_texts(ctx, exe, {"f": texts}, want=("mir", "noparse"))["f"]
+    st = {s: gen_common.canon_status(rs[s]) for s in SYNTAXES}
+    differs = len(set(st.values())) > 1
+    return {"texts": texts, "status": st, "front_ends_differ": differs}
+
+
+# ---------------------------------------------------------------------------------------------------------------
 # the check
 # ---------------------------------------------------------------------------------------------------------------
 
@@ -866,6 +884,17 @@ def run(ctx):
         if not ok:
             dup_bad.append((i, td, a, b))
 
+    probe = cfg_spacing_probe(ctx, exe)
+    hist["F:cfg-spacing-" + ("differs" if probe["front_ends_differ"] else "same")] += 1
+    if probe["front_ends_differ"]:
+        known = [f for f in vlib.load_known_findings("C16") if "cfg" in (f.get("class") or "")]
+        if known:
+            vlib.known_finding(ctx, known[0], "cfg expressions differing only in token spacing are one cfg for the DSL and two "
+                                              "for a manifest: " + json.dumps(probe["status"]))
+        else:
+            ctx.log("observation (not a recorded finding, does not fail the run): cfg token spacing is significant in "
+                    "manifests only:", json.dumps(probe["status"]))
+
     model = model_tie(ctx, exe, defs, streams, res, texts, rng, hist) if info["ok"] else {"skipped": "coq build broken", "diffs": []}
 
     n_eval = sum(len(t) for t in texts.values()) + 2 * len(dups)
@@ -922,7 +951,7 @@ def run(ctx):
         "evaluations": n_eval, "distinct_nontrivial": len(distinct), "rule": RULE, "samples": samples,
         "definitions": len(defs), "input_distribution": dict(hist), "feature_histogram": dict(feat),
         "global_config_combinations": len(combos), "accepted_ratio": round(acc_ratio, 3),
-        "disagreements_text": len(bad), "model_tie": {k: v for k, v in model.items() if k != "diffs"},
+        "disagreements_text": len(bad), "cfg_spacing_probe": {"status": probe["status"], "front_ends_differ": probe["front_ends_differ"]}, "model_tie": {k: v for k, v in model.items() if k != "diffs"},
         "disagreements_model": len(model.get("diffs", [])),
         "documented_front_end_specific_classes": [
             "dsl_nonbool_single: a non-bool field with a single address is rejected by the DSL lowering; manifests deliver "
